@@ -10,6 +10,81 @@ from engine.loader import norm
 P = "param.parameterized."
 
 
+def setstate_watcher_table(ctx, rule):
+    """Parameterized.__setstate__ interpreted on a saved watcher table (shared by R17.i and R06.s)."""
+    from engine.absint import Interp, Obj, Unsupported
+    from engine.loader import AnalysisError
+    ss = ctx.repo.func(P + "Parameterized.__setstate__")
+    # ---------------------------------------------------------------- R17.i
+    inst_old = Obj("original_instance")
+    fn_m, fn_p = Obj("method_caller", _watcher_name="cb"), Obj("foreign_function")
+    w_ab = Obj("watcher_of_a_and_b", inst=inst_old, fn=fn_m, __iter__=[inst_old, Obj("cls"), fn_m, "args", False, False, ["a", "b"], "value", 0])
+    w_a = Obj("watcher_of_a", inst=inst_old, fn=fn_p, __iter__=[inst_old, Obj("cls"), fn_p, "args", False, False, ["a"], "value", 0])
+    table = {"a": {"value": [w_ab, w_a]}, "b": {"value": [w_ab]}}
+    saved = Obj("saved_private", watchers=table, parameters_state={}, initialized=True)
+    the_copy = Obj("copy")
+    made = []
+
+    def hook2(fn, args, kwargs):
+        if fn == "Watcher":
+            o = Obj("new_watcher_%d" % len(made), args=list(args))
+            made.append(o)
+            return o
+        if fn == "_InstancePrivate":
+            return Obj("fresh_private", watchers={}, initialized=False, parameters_state={})
+        if fn == "type":
+            return Obj("Cls", _param__private=Obj("class_private", explicit_no_refs=[]))
+        if fn == "hasattr" and len(args) == 2:
+            return isinstance(args[0], Obj) and args[1] in args[0].attrs
+        if fn == "_m_caller":
+            return Obj("method_caller_for_copy", owner=args[0] if args else None)
+        if fn == "get_method_owner":
+            return None
+        if fn in ("inspect.ismethod", "ismethod"):
+            return False               # neither the method-caller wrapper nor the foreign function is a bound method
+        if fn == "id" and args and isinstance(args[0], Obj):
+            return args[0].name
+        if fn == "setattr" and len(args) == 3 and isinstance(args[0], Obj):
+            args[0].attrs[args[1]] = args[2]
+            return None
+        return NotImplemented
+    it = Interp(ctx.hier, call_hook=hook2)
+    try:
+        outs = it.run_all(ss, {"self": the_copy, "state": {"_param__private": saved, "plain_attribute": Obj("attr")}})
+    except Unsupported as e:
+        raise AnalysisError("absint cannot interpret Parameterized.__setstate__: %s -- the watcher-table model cannot decide" % e)
+    ctx.abstract_cases += 1
+    if len(outs) != 1 or outs[0].imprecise or outs[0].kind != "return":
+        raise AnalysisError("absint imprecise on Parameterized.__setstate__: %s -- the watcher-table model cannot decide" % (outs[0].notes[:2] if outs else "no outcome"))
+    la, lb = table["a"]["value"], table["b"]["value"]
+    problems = []
+    if not (isinstance(la, list) and isinstance(lb, list) and len(la) == 2 and len(lb) == 1 and all(x in made for x in la + lb)):
+        problems.append("the rebuilt table is %r: not one re-created watcher per saved entry, in the saved order" % (table,))
+    else:
+        if la[0] is not lb[0]:
+            problems.append("the watcher listed under both `a` and `b` becomes two objects on the copy (%s, %s): batched dispatch tells queued watchers apart by identity, so "
+                            "copy.param.update(a=.., b=..) calls its callback once per parameter instead of once" % (la[0].name, lb[0].name))
+        if la[0] is la[1]:
+            problems.append("two different saved watchers become one object")
+        for nw, old in ((la[0], w_ab), (la[1], w_a)):
+            a = nw.attrs.get("args") or []
+            if len(a) != 9:
+                problems.append("a watcher is re-created from %d fields instead of the 9 saved ones" % len(a))
+            elif a[0] is not the_copy:
+                problems.append("a re-created watcher is still bound to %r instead of the copy" % (a[0],))
+            elif old is w_ab and not (isinstance(a[2], Obj) and a[2].attrs.get("owner") is the_copy):
+                problems.append("the method-caller callback of a re-created watcher is not rebuilt for the copy (%r)" % (a[2],))
+            elif old is w_a and a[2] is not fn_p:
+                problems.append("a foreign callback is replaced on the copy (%r)" % (a[2],))
+            elif a[3:] != old.attrs["__iter__"][3:]:
+                problems.append("the remaining fields of a re-created watcher differ from the saved ones")
+    if problems:
+        ctx.fail(rule, ss, ss.node, "__setstate__ on a saved watcher table {a: [w_ab, w_a], b: [w_ab]}: %s" % problems[0], key=ss.qualname + "::watcher-table-model",
+                 input="@depends('a', 'b', watch=True) def cb; c = copy.deepcopy(p); c.param.update(a=1, b=1) -> cb runs twice")
+    else:
+        ctx.ok(rule, ss, ss.node, "saved table {a: [w_ab, w_a], b: [w_ab]} -> {a: [n0, n1], b: [n0]}: identity, order, binding to the copy and callbacks as specified")
+
+
 def run(ctx):
     ctx.rule("R17.l", "Parameterized.__getstate__, interpreted abstractly, saves every ordinary attribute and the complete per-instance value store -- entries that are still the class default object included (that entry pins a constant to the instance; a copy without it follows later class-level sets)", floor=1)
     ctx.rule("R17.m", "restoring a Parameter restores and nothing else: no __setstate__ of a Parameter class calls a method that recomputes slots from others (_update_state, compute_default, update, _ensure_value_is_in_objects, _validate): the copy must hold what was saved, e.g. an objects list the default was removed from", floor=2)
@@ -387,73 +462,6 @@ def run(ctx):
                     ctx.ok("R17.h", ss, n, "`%s` under `%s`: get_method_owner answers an owner only for callables with __name__%s" % (norm(a), via_owner[0], " (site also tests ismethod)" if own_test else ""))
     ctx.require(n_sites >= 1, "__setstate__ no longer rebinds bound-method callbacks by name under a get_method_owner test: anchor of R17.h vanished")
 
-    # ---------------------------------------------------------------- R17.i
-    inst_old = Obj("original_instance")
-    fn_m, fn_p = Obj("method_caller", _watcher_name="cb"), Obj("foreign_function")
-    w_ab = Obj("watcher_of_a_and_b", inst=inst_old, fn=fn_m, __iter__=[inst_old, Obj("cls"), fn_m, "args", False, False, ["a", "b"], "value", 0])
-    w_a = Obj("watcher_of_a", inst=inst_old, fn=fn_p, __iter__=[inst_old, Obj("cls"), fn_p, "args", False, False, ["a"], "value", 0])
-    table = {"a": {"value": [w_ab, w_a]}, "b": {"value": [w_ab]}}
-    saved = Obj("saved_private", watchers=table, parameters_state={}, initialized=True)
-    the_copy = Obj("copy")
-    made = []
-
-    def hook2(fn, args, kwargs):
-        if fn == "Watcher":
-            o = Obj("new_watcher_%d" % len(made), args=list(args))
-            made.append(o)
-            return o
-        if fn == "_InstancePrivate":
-            return Obj("fresh_private", watchers={}, initialized=False, parameters_state={})
-        if fn == "type":
-            return Obj("Cls", _param__private=Obj("class_private", explicit_no_refs=[]))
-        if fn == "hasattr" and len(args) == 2:
-            return isinstance(args[0], Obj) and args[1] in args[0].attrs
-        if fn == "_m_caller":
-            return Obj("method_caller_for_copy", owner=args[0] if args else None)
-        if fn == "get_method_owner":
-            return None
-        if fn in ("inspect.ismethod", "ismethod"):
-            return False               # neither the method-caller wrapper nor the foreign function is a bound method
-        if fn == "id" and args and isinstance(args[0], Obj):
-            return args[0].name
-        if fn == "setattr" and len(args) == 3 and isinstance(args[0], Obj):
-            args[0].attrs[args[1]] = args[2]
-            return None
-        return NotImplemented
-    it = Interp(ctx.hier, call_hook=hook2)
-    try:
-        outs = it.run_all(ss, {"self": the_copy, "state": {"_param__private": saved, "plain_attribute": Obj("attr")}})
-    except Unsupported as e:
-        raise AnalysisError("absint cannot interpret Parameterized.__setstate__: %s -- R17.i cannot decide" % e)
-    ctx.abstract_cases += 1
-    if len(outs) != 1 or outs[0].imprecise or outs[0].kind != "return":
-        raise AnalysisError("absint imprecise on Parameterized.__setstate__: %s -- R17.i cannot decide" % (outs[0].notes[:2] if outs else "no outcome"))
-    la, lb = table["a"]["value"], table["b"]["value"]
-    problems = []
-    if not (isinstance(la, list) and isinstance(lb, list) and len(la) == 2 and len(lb) == 1 and all(x in made for x in la + lb)):
-        problems.append("the rebuilt table is %r: not one re-created watcher per saved entry, in the saved order" % (table,))
-    else:
-        if la[0] is not lb[0]:
-            problems.append("the watcher listed under both `a` and `b` becomes two objects on the copy (%s, %s): batched dispatch tells queued watchers apart by identity, so "
-                            "copy.param.update(a=.., b=..) calls its callback once per parameter instead of once" % (la[0].name, lb[0].name))
-        if la[0] is la[1]:
-            problems.append("two different saved watchers become one object")
-        for nw, old in ((la[0], w_ab), (la[1], w_a)):
-            a = nw.attrs.get("args") or []
-            if len(a) != 9:
-                problems.append("a watcher is re-created from %d fields instead of the 9 saved ones" % len(a))
-            elif a[0] is not the_copy:
-                problems.append("a re-created watcher is still bound to %r instead of the copy" % (a[0],))
-            elif old is w_ab and not (isinstance(a[2], Obj) and a[2].attrs.get("owner") is the_copy):
-                problems.append("the method-caller callback of a re-created watcher is not rebuilt for the copy (%r)" % (a[2],))
-            elif old is w_a and a[2] is not fn_p:
-                problems.append("a foreign callback is replaced on the copy (%r)" % (a[2],))
-            elif a[3:] != old.attrs["__iter__"][3:]:
-                problems.append("the remaining fields of a re-created watcher differ from the saved ones")
-    if problems:
-        ctx.fail("R17.i", ss, ss.node, "__setstate__ on a saved watcher table {a: [w_ab, w_a], b: [w_ab]}: %s" % problems[0], key=ss.qualname + "::watcher-table-model",
-                 input="@depends('a', 'b', watch=True) def cb; c = copy.deepcopy(p); c.param.update(a=1, b=1) -> cb runs twice")
-    else:
-        ctx.ok("R17.i", ss, ss.node, "saved table {a: [w_ab, w_a], b: [w_ab]} -> {a: [n0, n1], b: [n0]}: identity, order, binding to the copy and callbacks as specified")
+    setstate_watcher_table(ctx, "R17.i")
     from checks.shared import dynamic_cache_writers
     dynamic_cache_writers(ctx, "R17.w")
